@@ -31,7 +31,7 @@ from fractions import Fraction
 from vlib import gen_tl
 from vlib import interp as I
 from vlib import psy
-from vlib.runner import HarnessError
+from vlib.runner import HarnessError, jhash
 
 PROP = "C19"
 LEVEL = "exploration"
@@ -698,9 +698,20 @@ def run(ctx):
     workdir = tempfile.mkdtemp(prefix="verif-c19-")
     harness_every = 5 if ctx.quick else 1
 
+    seen = set()
+
     def prop(kern):
-        ctx.case()
         case = kern.case()
+        ident = jhash([case["source"],
+                       [a.get("data") for a in case["args"]]])
+        if ident in seen:
+            # Hypothesis repeats small examples: evaluate each kernel once.
+            # (A kernel that failed never gets here again: ctx.hyp re-raises
+            # its cached failure, keyed by the same identity.)
+            ctx.label("duplicate_skipped")
+            return
+        seen.add(ident)
+        ctx.case()
         count = ctx.evaluations
         want_harness = count % harness_every == 0
         case["oracle"] = "harness" if want_harness else "exact"
